@@ -4,6 +4,8 @@
 // "returns for every input".
 #include "common/vcommon.hpp"
 
+#include <iterator>
+
 #include <nitro/lang/string.hpp>
 // terminal.hpp relies on string.hpp being included first
 #include <nitro/io/terminal.hpp>
@@ -19,7 +21,8 @@ enum Fn
     JOIN_INT = 4,
     PADDED = 5,
     JOIN_ROWS = 6, // elements whose own operator<< joins their cells
-    FN_COUNT = 7
+    JOIN_STREAM = 7, // elements read from single-pass iterators (istream_iterator, istreambuf_iterator)
+    FN_COUNT = 8
 };
 
 // a row prints itself by joining its cells: two join calls are alive at the same time
@@ -80,7 +83,7 @@ const char* property_ids()
 static const char* fn_name(int fn)
 {
     static const char* n[] = { "split", "replace_all", "starts_with", "join", "join<int>",
-                               "format_padded", "join<row>" };
+                               "format_padded", "join<row>", "join<single-pass iterator>" };
     return n[fn];
 }
 
@@ -99,6 +102,7 @@ std::string describe(const Case& c)
         break;
     case JOIN:
     case JOIN_ROWS:
+    case JOIN_STREAM:
         o << "[";
         for (std::size_t i = 0; i < c.list.size(); ++i)
             o << (i ? ", " : "") << vf::vis(c.list[i]);
@@ -145,11 +149,26 @@ Case generate(vf::Src& src, const std::string& mode)
     Case c;
     if (mode == "rc" || mode == "fuzz")
     {
-        c.fn = static_cast<int>(src.weighted({ 25, 30, 12, 22, 3, 7, 6 }));
+        c.fn = static_cast<int>(src.weighted({ 25, 30, 12, 20, 3, 7, 6, 4 }));
         switch (c.fn)
         {
         case SPLIT:
             c.s = gen_string(src, mode, 12);
+            if (src.coin(4))
+            {
+                // a long separator (lengths around 256) in a long text that also holds other letters
+                static const int lens[] = { 255, 256, 257, 300 };
+                int n = lens[src.index(4)];
+                c.t.clear();
+                for (int i = 0; i < n; ++i)
+                    c.t.push_back("ab#"[static_cast<std::size_t>((i * 7 + i / 5) % 3)]);
+                int pieces = src.irange(1, 3);
+                c.s.clear();
+                for (int k = 0; k < pieces; ++k)
+                    c.s += std::string(static_cast<std::size_t>(src.irange(0, 300)), "xyz"[src.index(3)]) + (src.coin(70) ? c.t : c.t.substr(0, 200));
+                c.s += std::string(static_cast<std::size_t>(src.irange(0, 300)), 'q');
+                break;
+            }
             // needle: mostly short and likely to occur; sometimes a substring of s
             if (!c.s.empty() && src.coin(40))
             {
@@ -162,6 +181,19 @@ Case generate(vf::Src& src, const std::string& mode)
             break;
         case REPLACE:
             c.s = gen_string(src, mode, 12);
+            if (src.coin(3))
+            {
+                // a text of some thousand characters over a tiny alphabet, a short pattern with more than a
+                // thousand occurrences, and a longer replacement that contains the pattern again
+                static const std::vector<std::string> pats = { "a", "\"", "'", "ab", "aa" };
+                c.t = src.pick(pats);
+                int n = std::vector<int>{ 1000, 1024, 1025, 1500, 2049, 3000 }[src.index(6)];
+                c.s.clear();
+                for (int i = 0; i < n; ++i)
+                    c.s += (src.coin(80) ? c.t : std::string(1, "bc "[src.index(3)]));
+                c.u = src.coin(50) ? c.t + c.t : (src.coin(50) ? c.t + "\\" + c.t + c.t : "x" + c.t);
+                break;
+            }
             if (!c.s.empty() && src.coin(40))
             {
                 auto b = src.index(c.s.size());
@@ -221,6 +253,16 @@ Case generate(vf::Src& src, const std::string& mode)
                 c.list.push_back(row);
             }
             static const std::vector<std::string> inf = { ";", " ", "", ", " };
+            c.t = src.pick(inf);
+            break;
+        }
+        case JOIN_STREAM:
+        {
+            int n = src.irange(0, 6);
+            static const std::vector<std::string> word = { "alpha", "b", "c,d", "x", "{}", "#" };
+            for (int i = 0; i < n; ++i)
+                c.list.push_back(src.pick(word));
+            static const std::vector<std::string> inf = { ",", " ", "", "-" };
             c.t = src.pick(inf);
             break;
         }
@@ -532,6 +574,33 @@ std::string check(const Case& c, vf::Ctx& ctx)
         std::string got = nitro::lang::join(rows.begin(), rows.end(), c.t);
         if (got != want)
             return "join of rows that join their own cells gives " + vf::vis(got) + ", expected " + vf::vis(want);
+        return "";
+    }
+    case JOIN_STREAM:
+    {
+        // the words through istream_iterator<std::string> (whitespace separated), then the same text
+        // character by character through istreambuf_iterator<char>
+        std::string text, want_words, want_chars;
+        for (std::size_t i = 0; i < c.list.size(); ++i)
+        {
+            text += (i ? " " : "") + c.list[i];
+            want_words += (i ? c.t : "") + c.list[i];
+        }
+        for (std::size_t i = 0; i < text.size(); ++i)
+            want_chars += (i ? c.t : "") + std::string(1, text[i]);
+        if (c.list.size() >= 2)
+            ctx.mark_nontrivial();
+        ctx.tag("join:single-pass-iterators");
+        std::istringstream in1(text);
+        std::string got = nitro::lang::join(std::istream_iterator<std::string>(in1), std::istream_iterator<std::string>(), c.t);
+        if (got != want_words)
+            return "join over istream_iterator<string> of " + vf::vis(text) + " gives " + vf::vis(got) + ", expected " +
+                   vf::vis(want_words);
+        std::istringstream in2(text);
+        std::string got2 = nitro::lang::join(std::istreambuf_iterator<char>(in2), std::istreambuf_iterator<char>(), c.t);
+        if (got2 != want_chars)
+            return "join over istreambuf_iterator<char> of " + vf::vis(text) + " gives " + vf::vis(got2) + ", expected " +
+                   vf::vis(want_chars);
         return "";
     }
     case JOIN_INT:
